@@ -232,6 +232,10 @@ impl<T> Queue<T> {
                         // we have to wait if there is enough data
                         // if no any more produce, this will be a dead loop
                         while pop_index >= self.tail.index.load(Ordering::Acquire) {
+                            #[cfg(may_verif)]
+                            if crate::verif::sleep(10_000_000) {
+                                continue;
+                            }
                             std::thread::sleep(std::time::Duration::from_millis(10));
                         }
                     }
@@ -387,6 +391,10 @@ impl<T> Queue<T> {
                         // except for the ABA situation
                         // if no any more data pushed, this will be a dead loop
                         while end > self.tail.index.load(Ordering::Acquire) {
+                            #[cfg(may_verif)]
+                            if crate::verif::sleep(10_000_000) {
+                                continue;
+                            }
                             std::thread::sleep(std::time::Duration::from_millis(10));
                         }
                     }
